@@ -4,9 +4,9 @@
    That the converged energy is the ground energy is numerical and only validated (dense eigvalsh).
    The machine (Model/MpsMachine.v, kind DMRG) is tied to /repo/emu_mps/mps_backend_impl.py by the exact
    trace correspondence of tools/props/_mps_trace.py.  Only final statements here. *)
-From Coq Require Import ZArith List Bool.
+From Coq Require Import ZArith List Bool PrimFloat.
 From EV Require Import Base.Arith Gen.Brent Model.MpsMachine Proofs.MpsStep Proofs.MpsPhase Proofs.MpsSweep
-  Proofs.MpsTdvpComplete Proofs.DmrgStep Proofs.DmrgPhase Proofs.DmrgSweep Proofs.DmrgContract Proofs.MpsTdvpTrace Proofs.DmrgStepContract.
+  Proofs.MpsTdvpComplete Proofs.DmrgStep Proofs.DmrgPhase Proofs.DmrgSweep Proofs.DmrgContract Proofs.MpsTdvpTrace Proofs.DmrgStepContract Proofs.MpsTdvpRun Proofs.DmrgRun.
 Import ListNotations.
 Open Scope Z_scope.
 
@@ -95,5 +95,41 @@ Theorem C09_step_completes_at_first_converged_sweep :
     (match next with Some _ => dstart A s' | None => True end) /\
     m_sweeps s' = m_sweeps s + Z.of_nat (length bl) + 1 /\ o_energy s' = rest /\ o_same s' = srest /\
     m_prevE s' = last_prev A (m_prevE s) bl /\
+    (m_kind s' = DMRG /\ m_N s' = m_N s /\ m_steps s' = m_steps s /\ m_times s' = m_times s /\
+     m_etol s' = m_etol s /\ m_maxsw s' = m_maxsw s) /\
     exists new, m_ev s' = new ++ m_ev s /\ flat_map (@fill_of A) new = [(m_tidx s, m_tgt s)].
 Proof. exact dmrg_step_contract. Qed.
+
+(* A whole DMRG run, for every energy stream that splits into one plan per time step (the blocks of the
+   unconverged sweeps followed by the block of the first converged sweep; plan_ok states exactly this and that the
+   cumulative sweep counter stays within max_sweeps -- sweep_count is never reset between time steps): the run
+   never fails, performs (#sweeps)*(2N-4) progress() calls, consumes exactly the planned energies, and records
+   every time step exactly once, in order, at its end time. *)
+Theorem C09_dmrg_whole_run :
+  forall (A : Type) (ar : Arith A) (n : nat) (t0 t1 : A) (rest : list A) (plan : list (dstep A)) (erest : list A)
+         (same : list bool) onorm ounif etol maxsw,
+  length plan = S (length rest) -> (length plan <= length same)%nat ->
+  plan_ok A ar n None etol 0 maxsw plan ->
+  exists s0 sf,
+    mk_initial ar DMRG (Z.of_nat n + 3) (1 + Z.of_nat (length rest)) (t0 :: t1 :: rest) etol maxsw
+               onorm ounif (flat_map (dstep_flat A) plan ++ erest) same = Ok s0 /\
+    iter_progress ar (plan_calls A n plan) s0 = Ok sf /\ is_finished sf = true /\
+    o_energy sf = erest /\ m_sweeps sf = plan_sweeps A plan /\
+    exists new, m_ev sf = new ++ rev (init_events A ar t1) /\
+      flat_map (@fill_of A) new = rev (expected_fills A 0 (t1 :: rest)).
+Proof. exact dmrg_whole_run. Qed.
+
+Theorem C09_calls_per_sweep :
+  forall (A : Type) (n : nat) (plan : list (dstep A)),
+  Z.of_nat (plan_calls A n plan) = plan_sweeps A plan * (2 * Z.of_nat n + 2).
+Proof. exact plan_calls_sweeps. Qed.
+
+(* the premises are satisfiable: 3 sites, two time steps; step 0 needs two sweeps (final energies 5 then 5),
+   step 1 converges with its first sweep because the reference energy of step 0 is never cleared *)
+Example C09_plan_satisfiable :
+  plan_ok PrimFloat.float float_arith 0 None 1%float 0 10
+    [([([], 7%float, [], 5%float)], ([], 6%float, [], 5%float)); ([], ([], 4%float, [], 5%float))].
+Proof.
+  cbn [plan_ok fst snd length]. unfold block_ok.
+  repeat split; try (repeat constructor; fail); try (vm_compute; reflexivity); vm_compute; discriminate.
+Qed.
